@@ -801,9 +801,7 @@ fn check_c09(cases: &[Case], results: &[Option<RunResult>]) -> Vec<Violation> {
                 }
             }
         });
-        if table_styled {
-            continue; // a styled <table> never unwinds its style (recorded separately)
-        }
+        let _ = table_styled;
         'outer: for l in lines {
             for e in l {
                 if let Elem::Str(s, tag) = e {
@@ -1027,7 +1025,8 @@ fn c03_known(dom: &[DNode]) -> Option<&'static str> {
             }
         }
         if let Some(p) = anc.last() {
-            if (p.is("ol") || p.is("dl")) && matches!(n, DNode::El { .. }) && !(n.is("li") || n.is("dt") || n.is("dd")) && vis_count(n) > 0 {
+            let item_ok = (p.is("ol") && n.is("li")) || (p.is("dl") && (n.is("dt") || n.is("dd")));
+            if (p.is("ol") || p.is("dl")) && matches!(n, DNode::El { .. }) && !item_ok && vis_count(n) > 0 {
                 k = Some("loose_text_in_list_or_table");
             }
             if (p.is("tr") && !(n.is("td") || n.is("th"))) || ((p.is("tbody") || p.is("thead") || p.is("table")) && !(n.is("tr") || n.is("tbody") || n.is("thead"))) {
